@@ -835,6 +835,8 @@ def run(ctx, audit):
             check_function(G, ctx, name, f, args, ia, asz)
     independence(G, ctx)
     opaque_wrapped(G, ctx)
+    import interp_tie
+    interp_tie.run_mvmap(ctx, 24 if ctx.thorough else 8)
     event_shaped_families(G, ctx)
     combinator(G, ctx)
     layout_model(G, ctx)
